@@ -237,9 +237,17 @@ def run_where(case):
             ("nested", os.path.join(proj_dir, "nested", "deeper"), []),
             ("elsewhere-abs", other, ["-f", os.path.join(proj_dir, "workflow.py")]),
             ("elsewhere-rel", other, ["-f", os.path.relpath(os.path.join(proj_dir, "workflow.py"), other)]),
+            # a relative -f with a directory part that only resolves against an ancestor of the invoking directory
+            ("ancestor-rel", other, ["-f", "proj/workflow.py"]),
+            ("nested-named", os.path.join(proj_dir, "nested", "deeper"), ["-f", "workflow.py:gwf"]),
         ]
+        # decoys: files with the same base name closer to the invoking directories must not be picked up for
+        # `-f proj/workflow.py`
+        with open(os.path.join(base, "elsewhere", "workflow.py"), "w") as f:
+            f.write("from gwf import Workflow\ngwf = Workflow()\ngwf.target('Decoy', inputs=[], outputs=[])\n")
         results = {}
         for tag, cwd, pre in invocations:
+            pre = ["-b", "slurm"] + pre  # never fall back to guessing a backend (a wrong workflow file has no config)
             before = set(os.listdir(cwd))
             ri = p.gwf(pre + ["info"], cwd=cwd)
             rs = p.gwf(pre + ["status"], cwd=cwd)
